@@ -875,10 +875,47 @@ class Lib:
         if is_intish(v):
             if method in ('as_millis', 'as_secs'):
                 return v
+            r = self.m_int(v, method, args, node)
+            if r is not NotImplemented:
+                return r
         r = I.world.call_method(I, ref, v, method, args, node)
         if r is not NotImplemented:
             return r
         raise Unsupported('method %s on %r' % (method, v), node)
+
+    # --- integers (unsigned)
+    def m_int(self, v, method, args, node):
+        I = self.I
+        a = I.deref(args[0]) if args else None
+        if a is not None and not is_intish(a):
+            return NotImplemented
+        conc = isinstance(v, int) and (a is None or isinstance(a, int))
+        w = v.size() if is_sym(v) else (a.size() if a is not None and is_sym(a) else INTW)
+        x = zint(v, w)
+        y = zint(a, w) if a is not None else None
+        if method == 'saturating_sub':
+            return max(v - a, 0) if conc else simp(z3.If(z3.ULT(x, y), z3.BitVecVal(0, w), x - y))
+        if method == 'saturating_add':
+            return v + a if conc else simp(z3.If(z3.ULT(x + y, x), z3.BitVecVal((1 << w) - 1, w), x + y))
+        if method in ('wrapping_sub',):
+            return (v - a) % (1 << 64) if conc else simp(x - y)
+        if method in ('wrapping_add',):
+            return (v + a) % (1 << 64) if conc else simp(x + y)
+        if method == 'checked_sub':
+            if conc:
+                return some(v - a) if v >= a else NONE
+            return Union([(simp(z3.UGE(x, y)), some(simp(x - y))), (simp(z3.ULT(x, y)), NONE)])
+        if method == 'checked_add':
+            return some(v + a) if conc else some(simp(x + y))
+        if method == 'min':
+            return min(v, a) if conc else simp(z3.If(z3.ULT(x, y), x, y))
+        if method == 'max':
+            return max(v, a) if conc else simp(z3.If(z3.ULT(x, y), y, x))
+        if method == 'pow' and conc:
+            return v ** a
+        if method == 'is_power_of_two' and isinstance(v, int):
+            return v > 0 and (v & (v - 1)) == 0
+        return NotImplemented
 
     # --- Option
     def m_option(self, ref, v, method, args, node):
